@@ -6,7 +6,7 @@ LEVEL = "fault_enumeration"
 RULE = ("a scenario (connect, shell, stat, list, pull, push, pull with callback, a streaming_shell abandoned half-way; with a background stream whose packets get parked in the "
         "store) is run fault-free to count its N transport calls; then for EVERY call index k < N and every fault kind {timeout error, ConnectionResetError, BrokenPipeError/"
         "OSError, end-of-stream} injected at call k, once or from k onwards: each step must either raise or pass its result oracle; afterwards no internal lock is held, "
-        "close() returns, connect() to the healed device succeeds, the packet store holds nothing of the old session, and the whole scenario passes its oracles. thorough adds "
+        "close() returns, connect() to the healed device succeeds, the packet store holds nothing of the old session, and the whole scenario passes its oracles. quick also runs a directory push (multi-WRTE file) followed by a one-packet shell; the device may close a stream without waiting for the last ack and the transport timeout (1 s) is shorter than the read timeout, so that an injected timeout is over before the operation's own deadline. thorough adds "
         "sampled fault pairs and all maxdata values. non-trivial = the fault was actually injected; distinct = (impl, scenario, k, kind, persistence) cells")
 ASSUMPTIONS = ["garbage bytes are not a transport failure in the statement's sense (corruption belongs to C03)",
                "the scenario is not continued on the broken session after the first step that raised",
